@@ -138,6 +138,41 @@ type c19Base struct {
 	id, class string
 	src       string
 	toks      []verifhook.Tok
+	orig      string // dense bases: the layout the text was condensed from (becomes a variant)
+}
+
+// c19Dense re-emits the token sequence of src on a single line, one space between tokens.
+func c19Dense(src string, toks []verifhook.Tok) string {
+	var sb strings.Builder
+	for i, t := range toks {
+		if i > 0 {
+			sb.WriteByte(' ')
+		}
+		sb.WriteString(src[t.Start:t.End])
+	}
+	sb.WriteByte('\n')
+	return sb.String()
+}
+
+// c19Relayout presents the original layout as a variant of its dense base: the same tokens with
+// whitespace and newlines inserted into (almost) every gap.
+func c19Relayout(b *c19Base, bi int) (c19Variant, bool) {
+	ot, lexErrs, err := c19Tokenize(b.orig)
+	if err != nil || lexErrs > 0 || len(ot) != len(b.toks) {
+		return c19Variant{}, false
+	}
+	v := c19Variant{base: bi, src: b.orig, shift: make([]int, len(ot)), kinds: map[string]bool{"relayout": true, "newline": true}}
+	for i := range ot {
+		if b.orig[ot[i].Start:ot[i].End] != b.src[b.toks[i].Start:b.toks[i].End] {
+			return c19Variant{}, false
+		}
+		v.shift[i] = ot[i].Start - b.toks[i].Start
+		if i > 0 && v.shift[i] != v.shift[i-1] {
+			v.gaps++
+		}
+	}
+	v.gapTokens = []string{"every statement boundary (original layout against the one-line layout)"}
+	return v, true
 }
 
 type c19Variant struct {
@@ -355,7 +390,7 @@ func c19DiagSig(diff string) string {
 
 func checkC19(c *Ctx) error {
 	r := c.R
-	r.Rule = "P' = P with trivia (spaces, tab-terminated runs, LF/CRLF newlines, line comments, single- and multi-line block comments with code-like, quote, @extern and non-ASCII text) inserted in 1..40 token gaps of P, token boundaries taken from the compiler's own lexer (verif hook). Required: same verdict and exit status; the multiset of diagnostics {severity, code, message, line:column} of P' equals that of P mapped through the token correspondence, positions recomputed by the rig's own model (line = 1 + newlines, column = 1 + rune widths, tab = 4); for accepted P the executables of P and P' print the same lines and end the same way. non-trivial = a distinct P' whose verdict was decided and which had >= 1 located diagnostic compared or was executed"
+	r.Rule = "P' = P with trivia (spaces, tab-terminated runs, LF/CRLF newlines, line comments, single- and multi-line block comments with code-like, quote, @extern and non-ASCII text) inserted in 1..40 token gaps of P (P is a generated program in its usual layout, a type-error or token-mutation twin of it, or the same token sequence condensed onto ONE line, in which case the usual layout is itself one of the variants), token boundaries taken from the compiler's own lexer (verif hook). Required: same verdict and exit status; the multiset of diagnostics {severity, code, message, line:column} of P' equals that of P mapped through the token correspondence, positions recomputed by the rig's own model (line = 1 + newlines, column = 1 + rune widths, tab = 4); for accepted P the executables of P and P' print the same lines and end the same way. non-trivial = a distinct P' whose verdict was decided and which had >= 1 located diagnostic compared or was executed"
 	r.Assumptions = []string{
 		"tabs are inserted only as the last character of a whitespace run (Position.Advance's documented quirk after a tab is pinned by TestPositionAdvance and is not part of this property)",
 		"comment text containing @extern is not inserted in the gap immediately before `fn` (documented pragma position)",
@@ -380,6 +415,16 @@ func checkC19(c *Ctx) error {
 		p.RawDecls = append(p.RawDecls, c03Support)
 		src := p.Source()
 		addBase(fmt.Sprintf("gen:%d:%d:accepted", c.Env.Seed, b), "accepted", src)
+		// the same program condensed onto one line: every newline of the usual layout is then an
+		// insertion, and constructs that normally sit on lines of their own share a line
+		if dt, le, err := c19Tokenize(src); err == nil && le == 0 && len(dt) >= 5 {
+			dense := c19Dense(src, dt)
+			if nt, le2, err2 := c19Tokenize(dense); err2 == nil && le2 == 0 && len(nt) == len(dt) {
+				bases = append(bases, c19Base{id: fmt.Sprintf("gen:%d:%d:accepted-dense", c.Env.Seed, b), class: "accepted-dense", src: dense, toks: nt, orig: src})
+			} else {
+				r.Count("dense_layout_not_token_equivalent(skipped)", 1)
+			}
+		}
 		// type-error twin: one C03 rule injected
 		sites := gen.Sites(p)
 		for tries := 0; tries < 2; tries++ {
@@ -443,6 +488,11 @@ func checkC19(c *Ctx) error {
 		for ti := range b.toks {
 			if hot[ti] {
 				hotList = append(hotList, ti)
+			}
+		}
+		if b.orig != "" {
+			if v, ok := c19Relayout(b, bi); ok {
+				vars = append(vars, v)
 			}
 		}
 		for k := 0; k < nVar; k++ {
